@@ -82,4 +82,10 @@ CLAIMS = {
         note="simhap's model of set server / set ssl cert / commit ssl cert / reload is the trusted base; real HAProxy is not available in the sandbox.",
         technique="stateful property-based testing (rapid) with fault injection: model-based comparison running state == load(files) after every step",
     ),
+    "C11": dict(
+        text="Generated histories of spurious re-notifications and in-capacity endpoint churn are run against the simulated HAProxy; the reload counter must not move for them, and every reload must leave the configured free-slot padding. An intermittent needless reload (map iteration order inside the path maps) found this way was repaired in /repo.",
+        design_ref="DESIGN.md section 3, C11",
+        note="'Fits in the existing slots' is decided with an upper bound of the endpoints the backend may need, so the oracle never demands a dynamic update the slots cannot hold; slots-min-free / increment are read from the controller's model of the backend.",
+        technique="stateful property-based testing (rapid): invariant on the reload counter of a simulated HAProxy + slot-layout invariant after reloads",
+    ),
 }
